@@ -176,6 +176,34 @@ PROPS = {
                         "the lock probe sees the mutexes named in the verif hook (connection, wire connection tables, stream state), not every lock of the library",
                         "the path-complete static lock-release lemma of the statement is not claimed (DESIGN.md section 5)"],
     },
+    "C09": {
+        "level": "exploration",
+        "groups": [g("workload", "c09", q=12, t=24, race=True, run="^TestProp$", gomaxprocs=[4, 2, 8, 16]),
+                   g("upstream", "c01", q=2, t=8, race=True, race_only=True, run="^TestProp$", env={"VERIF_CHECKS": "60"}),
+                   g("reconnect-transport", "c18", q=2, t=8, race=True, race_only=True, run="^TestProp$", env={"VERIF_CHECKS": "120"}),
+                   g("multi-transport", "c19", q=2, t=8, race=True, race_only=True, run="^TestProp$", env={"VERIF_CHECKS": "120"}),
+                   g("storage", "c07", q=2, t=8, race=True, race_only=True, run="^Test(Storage|Conn)$", env={"VERIF_CHECKS": "150"}),
+                   g("resume", "c02", q=2, t=8, race=True, race_only=True, run="^TestProp$", env={"VERIF_CHECKS": "20"}),
+                   g("reconnect", "c05", q=2, t=8, race=True, race_only=True, run="^TestProp$", env={"VERIF_CHECKS": "10"}),
+                   g("close", "c10", q=2, t=8, race=True, race_only=True, run="^TestProp$", env={"VERIF_CHECKS": "12"}),
+                   g("downstream", "c04", q=2, t=8, race=True, race_only=True, run="^TestProp$", env={"VERIF_CHECKS": "40"}),
+                   g("calls", "c16", q=1, t=4, race=True, race_only=True, run="^TestProp$", env={"VERIF_CHECKS": "60"})],
+        "parallel": 16,
+        "race_count": True,
+        "timeout": {"quick": 900, "thorough": 3600},
+        "rule": ("generated workloads compiled with -race: (workload) 2-8 goroutines running generated programs over ONE connection - open/close "
+                 "upstreams and downstreams (private and shared names) while others write, flush, read, take State() snapshots, send metadata and "
+                 "calls - with a concurrently acting broker (acks, chunks and metadata to every live downstream every 300 us) and 0-2 link cuts "
+                 "(instant or paced redial) overlapping the API calls; plus the generated workloads of C01 (concurrent writers), C02/C05 (resume "
+                 "and reconnect), C04 (downstream acks), C07 (storage goroutines, multi-stream connections), C10 (close races), C16 (concurrent "
+                 "callers), C18 (reconnect transport: concurrent writers + underlying failures) and C19 (multi transport + schedulers) re-run under "
+                 "the race detector. Oracle: every 'WARNING: DATA RACE' block is parsed, normalised to a signature (for both accesses the innermost "
+                 "library frame as function + source text) and reported unless listed in known_findings.json; a 'fatal error: concurrent map' crash "
+                 "is a process-crash violation. Non-trivial = a workload in which >= 2 goroutines used the same connection concurrently; distinct "
+                 "by case hash."),
+        "assumptions": ["the race detector is precise but only for executed schedules: a green run is evidence, not proof; the static guarded-by report named in the property is another technique and not claimed",
+                        "race reports whose both stacks lie entirely in the harness are ignored for the borrowed workloads (and are an infrastructure error for the dedicated workload)"],
+    },
     "C10": {
         "level": "exploration",
         "groups": [g("main", "c10", q=16, t=32, run="^Test(Regress|Prop)$", gomaxprocs=[4, 2, 4, 16])],
